@@ -25,18 +25,45 @@ type c16RTCase struct {
 	Pairs []c16Pair `json:"pairs"`
 }
 
+// c16Scale: the staleness interval the binary under test was built with. The
+// thorough tier runs the unchanged code (one minute). The quick tier runs a
+// time-scaled build: the driver compiles /repo's current auditd.go with the one
+// interval constant replaced (VERIF_STALE_MS), so that the same real-time
+// experiment takes seconds; its margins are wider because a loaded machine can
+// delay the Read loop by a noticeable fraction of a two-second interval.
+type c16Scale struct {
+	staleMs            int
+	firstMax           int // first halves are spread over [0, firstMax]
+	insideMax, edgeMin int // generated Δ for "inside" pairs
+	outMin, outMax     int // generated Δ for "outside" pairs
+	judgeIn, judgeOut  time.Duration
+}
+
+func c16ScaleNow() c16Scale {
+	ms := envInt("VERIF_STALE_MS", 60000)
+	if ms == 60000 {
+		return c16Scale{60000, 60000, 58000, 50000, 122000, 140000, 59 * time.Second, 121 * time.Second}
+	}
+	f := func(x float64) int { return int(x * float64(ms)) }
+	// first halves over four intervals: login traffic never pauses for a whole
+	// interval while the "outside" pairs wait (a cleanup that only runs when the
+	// loop is idle must not pass)
+	return c16Scale{ms, f(4.0), f(0.85), f(0.6), f(3.1), f(3.5), time.Duration(f(0.9)) * time.Millisecond, time.Duration(f(3.0)) * time.Millisecond}
+}
+
 func genC16RT(rt *rapid.T) c16RTCase {
 	n := envInt("VERIF_C16_PAIRS", 40)
+	sc := c16ScaleNow()
 	c := c16RTCase{}
 	for i := 0; i < n; i++ {
-		p := c16Pair{N: i + 1, FirstAtMs: rapid.IntRange(0, 60000).Draw(rt, "first"), LoginFirst: rapid.Bool().Draw(rt, "loginFirst")}
+		p := c16Pair{N: i + 1, FirstAtMs: rapid.IntRange(0, sc.firstMax).Draw(rt, "first"), LoginFirst: rapid.Bool().Draw(rt, "loginFirst")}
 		if rapid.Bool().Draw(rt, "inside") {
-			p.DeltaMs = rapid.IntRange(0, 58000).Draw(rt, "delta")
+			p.DeltaMs = rapid.IntRange(0, sc.insideMax).Draw(rt, "delta")
 			if rapid.IntRange(0, 3).Draw(rt, "edge") == 0 {
-				p.DeltaMs = rapid.IntRange(50000, 58000).Draw(rt, "deltaEdge")
+				p.DeltaMs = rapid.IntRange(sc.edgeMin, sc.insideMax).Draw(rt, "deltaEdge")
 			}
 		} else {
-			p.DeltaMs = rapid.IntRange(122000, 140000).Draw(rt, "deltaOut")
+			p.DeltaMs = rapid.IntRange(sc.outMin, sc.outMax).Draw(rt, "deltaOut")
 		}
 		c.Pairs = append(c.Pairs, p)
 	}
@@ -44,6 +71,11 @@ func genC16RT(rt *rapid.T) c16RTCase {
 }
 
 func execC16RT(c c16RTCase) Outcome {
+	sc := c16ScaleNow()
+	pairsStep := "c16.realtime.pairs"
+	if sc.staleMs != 60000 {
+		pairsStep = "c16.scaled.pairs"
+	}
 	rig := newReadRig(nil)
 	defer rig.stop()
 	type action struct {
@@ -139,21 +171,21 @@ func execC16RT(c c16RTCase) Outcome {
 		narrowest := secondBegin[i].Sub(firstEnd[i]) // lower bound
 		var inside bool
 		switch {
-		case widest <= 59*time.Second:
+		case widest <= sc.judgeIn:
 			inside = true
-		case narrowest >= 121*time.Second:
+		case narrowest >= sc.judgeOut:
 			inside = false
 		default:
-			record("c16.realtime.pairs", p, Outcome{Skip: "actual_distance_in_the_unspecified_gap"})
+			record(pairsStep, p, Outcome{Skip: "actual_distance_in_the_unspecified_gap"})
 			continue
 		}
 		o := Outcome{NT: true, Labels: []string{fmt.Sprintf("inside_window:%v", inside), fmt.Sprintf("login_first:%v", p.LoginFirst)}}
-		record("c16.realtime.pairs", p, o)
+		record(pairsStep, p, o)
 		if inside && got != 3 {
-			return fail("halves %d ms apart (login first=%v): %d of the session's 3 events emitted; they arrived within a minute of each other and must be correlated", p.DeltaMs, p.LoginFirst, got)
+			return fail("halves %d ms apart (login first=%v): %d of the session's 3 events emitted; they arrived within the staleness interval (%d ms in this build) of each other and must be correlated", p.DeltaMs, p.LoginFirst, got, sc.staleMs)
 		}
 		if !inside && got != 0 {
-			return fail("halves %d ms apart (login first=%v): %d events emitted although the first half was more than two minutes old (held events must be dropped, not emitted late)", p.DeltaMs, p.LoginFirst, got)
+			return fail("halves %d ms apart (login first=%v): %d events emitted although the first half was older than %v with a staleness interval of %d ms (held events must be dropped, not emitted late)", p.DeltaMs, p.LoginFirst, got, sc.judgeOut, sc.staleMs)
 		}
 	}
 	return Outcome{NT: true, Labels: []string{fmt.Sprintf("pairs:%d", len(c.Pairs))}}
@@ -161,4 +193,12 @@ func execC16RT(c c16RTCase) Outcome {
 
 func TestC16_RealTime(t *testing.T) {
 	RunProp(t, "c16.realtime", genC16RT, execC16RT)
+}
+
+// the same experiment on the time-scaled build (quick tier)
+func TestC16_Scaled(t *testing.T) {
+	if envInt("VERIF_STALE_MS", 60000) == 60000 {
+		panic(&infraError{"TestC16_Scaled needs the time-scaled build (VERIF_STALE_MS)"})
+	}
+	RunProp(t, "c16.scaled", func(rt *rapid.T) c16RTCase { return genC16RT(rt) }, retryFlaky("c16.scaled", execC16RT))
 }
